@@ -183,6 +183,8 @@ func (c *twistPoint) Mul(a *twistPoint, scalar *big.Int) {
 func (c *twistPoint) MakeAffine() {
 	g := c.Clone()
 	if g.z.IsOne() {
+		// the Miller loop relies on the cached t = z² of an affine point
+		c.t.SetOne()
 		return
 	} else if g.z.IsZero() {
 		g.x.SetZero()
@@ -206,7 +208,7 @@ func (c *twistPoint) Neg(a *twistPoint) {
 	c.x.Set(&a.x)
 	c.y.Neg(&a.y)
 	c.z.Set(&a.z)
-	c.t.SetZero()
+	c.t.Set(&a.t) // t caches z², which negation leaves unchanged
 }
 
 // Clone makes a deep copy of the point
